@@ -166,7 +166,13 @@ def run(ctx):
                     g = g * rng.uniform(-4, 4)
                 mode = LinearScaleMode(g, o)
             cls = ComplexWaveform if complex_w else AnalogWaveform
-            w = cls.from_array_1d(raw, raw_dt, scale_mode=mode)
+            if rng.random() < 0.4:
+                # the samples sit inside a larger buffer: non-zero internal start index, slack behind the window
+                k0, k1 = rng.randint(1, 4), rng.randint(0, 3)
+                buf = np.concatenate([sample_values(raw_dt, k0), raw, sample_values(raw_dt, k1)]).astype(raw_dt)
+                w = cls.from_array_1d(buf, raw_dt, copy=rng.random() < 0.5, start_index=k0, sample_count=n, scale_mode=mode)
+            else:
+                w = cls.from_array_1d(raw, raw_dt, scale_mode=mode)
             sup = [np.complex64, np.complex128] if complex_w else [np.float32, np.float64]
             c = rng.random()
             if c < 0.12:
